@@ -131,3 +131,20 @@ PROPS["C19"] = {"theorems": [("GdslModel.Props.C19", "G.Own." + t) for t in ["in
     "exhaustive": False,
     "level_text": "Machine-checked proof (Lean 4) about the ownership-accounting model (strong handles held by program slots: node handles, edges, paths, search results, containers; adjacency entries weak): after every history a node value is released exactly when no slot mentions its key - at most once, never while a handle is held, always once the last handle is gone - for any graph shape (cycles, self-loops, still-connected nodes) and drop order; results of traversals only ever hold alive nodes (uses the BFS/DFS/ordering soundness theorems); connecting creates no handle. That Rc/Arc/Weak implement this accounting is trusted std semantics; the tie to the four flavours is the correspondence with drop-counting node values (released sets compared after every request of seeded histories with build, hand-off and tear-down phases) and a direct oracle on the handles actually held.",
     "level_note": CORR_NOTE, "technique": "Lean 4 invariant proof over the ownership-accounting model + model/implementation correspondence with drop-counting payloads + held-handle oracle", "design_ref": "DESIGN.md section 7, C19"}
+
+PROPS["C17"] = {"theorems": [("GdslModel.Props.C17", "G.Conc." + t) for t in ["deadlock_free_di", "deadlock_free_un", "deadlock_free_wf", "serialisable_di", "serialisable_un", "quiescent_mirror_di", "quiescent_mirror_un", "unlocked_not_serialisable"]], "oracles": ["c17"],
+    "rule": "scenario = initial two-node graph + per-thread call lists; every schedule (choice of the thread that proceeds at each lock request of a node lock or the mutation mutex) is explored depth-first with real threads under the lock hook; each explored schedule is one case, replayed on the Lean thread model with the same decisions; distinct_nontrivial = number of schedules explored.",
+    "exhaustive": True, "timeout": {"quick": 1800, "thorough": 7200},
+    "level_text": "Machine-checked proof (Lean 4) about the thread model of the sync flavours (lock programs of Model/Sync.lean, one atomic lock event per step, reader-writer admission; any number of threads, any schedule): no reachable configuration with an unfinished thread is stuck (deadlock freedom, also with readers and iterator steps, from 'node locks never nest, the mutex is requested only while holding nothing'); when all threads are done, the store and every mutator's return value are those of a sequential order of the same calls that respects each thread's order (the order of mutex acquisitions), hence no panic and the mirror/symmetry invariant at quiescence; without the mutation mutex the model admits a non-serialisable outcome (negative control by decide). The model's acquisition points are tied to the real code by the deterministic scheduler: real threads park at every lock request (node locks and the mutex go through the cfg-guarded hook), every schedule of every small scenario is enumerated, replayed on the model decision by decision, and every outcome is checked against the set of sequential outcomes computed on the real code. Named limits: the OS scheduler's own choices and fairness are replaced by 'all interleavings of lock events'; std's RwLock writer preference enters only as 'a second read guard behind a waiting writer is a deadlock'; panics raised by user payload code inside a locked region are outside the model.",
+    "level_note": CORR_NOTE + " Deterministic scheduler (harness/src/sched.rs) and lock hook (src/verif_hook.rs, cfg gdsl_verif) are part of the trusted correspondence machinery.",
+    "technique": "Lean 4 proof over all interleavings (progress invariant; serialisation by a ghost commit log) + exhaustive deterministic-scheduler correspondence on real threads + sequential-outcome oracle",
+    "design_ref": "DESIGN.md section 7, C17"}
+
+PROPS["C15"] = {"theorems": [("GdslModel.Props.C15", "G.Sync." + t) for t in ["di_single_refines", "un_single_refines", "di_run_eq_plain", "un_run_eq_plain", "query_refines", "iter_next_refines"]],
+    "oracles": ["c15"],
+    "rule": "every generated single-threaded program (edge histories with random handle provenance, all search/cycle/ordering configurations with callbacks and filters, container histories, scc, DOT, serde round trips, comparisons) is run on digraph and sync_digraph resp. ungraph and sync_ungraph; the two implementation streams are compared line by line (container-order-dependent results as sets), and each stream is compared with the model; distinct_nontrivial = number of programs.",
+    "exhaustive": False,
+    "level_text": "Machine-checked proof (Lean 4) that every lock program of the sync flavours (the four mutators with the mutation mutex, queries, the iterator step), run alone from any store, never blocks on a lock it holds itself and computes exactly the plain flavour's function (same final store, same return value), lifted to whole call sequences; the iterator step holds no lock when it returns. Everything above the edge operations and the iterator step (traversals, containers, scc, serde, macros) is one model for both members of a pair. The tie to the code is a direct differential of the two implementations on every generated program (no model involved) plus the model correspondence of each; API present in only one member of a pair (Graph::with_capacity, to_dot_with_attr / sizeof of one flavour) is outside 'calls common to both'.",
+    "level_note": CORR_NOTE + " The lock programs' acquisition points are validated against the real code by the C17 scheduler correspondence.",
+    "technique": "Lean 4 refinement proof (lock programs run alone = plain functions) + direct plain-vs-sync differential of the implementations + model correspondence",
+    "design_ref": "DESIGN.md section 7, C15"}
